@@ -171,7 +171,8 @@ def lag_conformance(ctx, behaviours, rng):
     hists = [translate_lag(b, rng, scn) for b in behaviours]
     for _ in range(len(behaviours) // 2):
         # (partitions are not part of MasterLag.tla)
-        hists.append([e for e in gen_stale(scn, rng) if e[0] not in ('SetPartition', 'DetachRack')])
+        hists.append([(('DeleteServer', e[1]) if e[0] == 'EmptyServer' else e) for e in gen_stale(scn, rng)
+                      if e[0] not in ('SetPartition', 'DetachRack')])
     traces = mc.record('lag', hists)
     verdicts, stats = mc.validate_lag(traces)
     ctx.cmds.append(stats['cmd'])
@@ -262,6 +263,10 @@ def gen_moves(scn, rng):
     why = rng.choice([[('SetPartition', [rng.choice(servers), rng.choice(['_default', 'pB'])])],
                       [('SetAllocs', [rng.randrange(len(scn['allocsets'])) + 1])]])
     out += [base + why + [('CrashCycle', [k]), ('Restart', [])] for k in range(1, 7)]
+    # ... and with a storage ERROR instead of a crash at the k-th write (the master ends
+    # on it just the same)
+    s = rng.choice(servers)
+    out += [base + [('NodeDown', [s])] + tick + [('FaultCycle', [k]), ('Restart', [])] for k in range(1, 7)]
     return out
 
 
@@ -284,7 +289,10 @@ def gen_stale(scn, rng):
             if s in up and rng.random() < 0.7:
                 h.append(('NodeDown', [s]))
                 up.discard(s)
-            h.append(('DeleteServer', [s]))
+            if rng.random() < 0.4:
+                h.append(('EmptyServer', [s]))     # deleted and half re-created
+            else:
+                h.append(('DeleteServer', [s]))
             exists.discard(s)
         elif r < 0.6 and s in up:
             h.append(('NodeDown', [s]))
@@ -303,6 +311,7 @@ def gen_stale(scn, rng):
     h.append(('StaleCycle', []))
     tail = rng.choice([[('Restart', [])],
                        [('Deliver', []), ('Cycle', []), ('Restart', [])],
+                       [('Deliver', []), ('Cycle', []), ('Cycle', [])],
                        [('CrashRestart', [rng.randrange(1, 6)]), ('Restart', [])],
                        [('Deliver', []), ('CrashCycle', [rng.randrange(1, 4)]), ('Restart', [])]])
     return h + tail + [('Cycle', [])]
@@ -398,6 +407,9 @@ def run(ctx, prop):
     if prop == 'C09':
         for _ in range(60 if ctx.quick else 800):
             hist.append(('pending', mc.gen_pending(scn, rng, rng.choice([6, 10]))))
+    if prop == 'C09':
+        for _ in range(100 if ctx.quick else 1500):
+            hist.append(('stale', gen_stale(scn, rng)))
     if prop == 'C10':
         for _ in range(30 if ctx.quick else 300):
             for hc in gen_failover(scn, rng):
@@ -540,7 +552,8 @@ def selftest(ctx, prop):
         # binding: a recorded lag trace with one corrupted observation is rejected
         rng = random.Random(7)
         scn = mc.SCENARIOS['lag']
-        traces = mc.record('lag', [[e for e in gen_stale(scn, rng) if e[0] not in ('SetPartition', 'DetachRack')]
+        traces = mc.record('lag', [[(('DeleteServer', e[1]) if e[0] == 'EmptyServer' else e)
+                                    for e in gen_stale(scn, rng) if e[0] not in ('SetPartition', 'DetachRack')]
                                    for _ in range(12)])
         clean, _ = mc.validate_lag(traces)
         import copy
